@@ -1,52 +1,65 @@
-import G3D.Proofs.BodySoundSets
-import G3D.Proofs.K5
-/-! # Full-strength statements of the properties whose proofs are partial
-    These are `def … : Prop` — statements, NOT theorems: they record, in the vocabulary of the model, exactly what remains to be
-    proved, so that a partial proof is never mistaken for the whole property.  What IS proved about each is in `Props/Cxx.lean`;
-    the correspondence decides them on every run against the exact vertex-enumeration oracle. -/
+import G3D.Props.C12
+import G3D.Props.C04b
+import G3D.Proofs.EulerAllProof
+/-! # Full-strength statements, and what they now reduce to
+
+The statements below are the properties C02 / C03 / C04 / C12 at full strength in the vocabulary of the model.  They are
+`def … : Prop`; the theorems after them show that each FOLLOWS from Euler's polyhedron formula for the face complex assembled
+by polyhedron × polyhedron (`EulerAll`, the check `ConvexPolyhedron.__init__` performs at run time) and from nothing else —
+and `eulerAll` proves that formula, so all of them hold (`*_holds`).
+
+Operand validity is `OpOK`: well-formed flats, Valid polygons, polyhedra meeting `ExactHyp` (Valid faces, closed surface, vertices
+inside, NO coplanar neighbouring faces, edge list = face edges).  The exclusion of coplanar neighbours is necessary:
+`not_exact_with_coplanar_neighbours` (observation O1). -/
 namespace G3D.Props.Full
 open G3D V3
 
-/-- denotation of an operand with polyhedra as hulls of their vertices -/
-def HullDen : Obj → V3 → Prop
-  | .flat g => g.den
-  | .polygon P => InHull P.pts
-  | .polyhedron B => InHull B.verts
-
-/-- operand validity -/
-def OperandValid : Obj → Prop
-  | .flat g => g.WF
-  | .polygon P => P.Valid
-  | .polyhedron B => B.Valid ∧ B.Good
-
-/-- **C02 / C03 / C04 at full strength**: for valid operands of any of the 49 type pairs `intersection` returns, without
-    error, an object denoting EXACTLY the common points (proved: all flat pairs, flat × polygon, polygon × polygon with
-    different carrier planes; soundness for every pair; open: completeness K2, K3, K4) -/
+/-- **C02 / C03 / C04 at full strength**: for admissible operands of any of the 49 type pairs `intersection` returns, without
+    error, None or an admissible operand denoting EXACTLY the common points -/
 def inter_exact_all : Prop :=
-  ∀ a b : Obj, OperandValid a → OperandValid b →
-    ∃ o, inter a b = .ok o ∧ ∀ x, denOptB o x ↔ (HullDen a x ∧ HullDen b x)
+  ∀ a b : Obj, OpOK a → OpOK b →
+    ∃ o, inter a b = .ok o ∧ ResOK' o ∧ ∀ x, denOptB o x ↔ (ObjDen a x ∧ ObjDen b x)
 
-/-- **C04 at full strength** (totality part): no internal error on valid operands -/
+/-- **C04 at full strength** (totality part): no exception on admissible operands -/
 def inter_total_all : Prop :=
-  ∀ a b : Obj, OperandValid a → OperandValid b → ∀ e, inter a b ≠ .error e
+  ∀ a b : Obj, OpOK a → OpOK b → ∀ e, inter a b ≠ .error e
 
 /-- **C12 at full strength**: associativity on denotations for all 343 type triples -/
 def inter_assoc_all : Prop :=
-  ∀ a b c : Obj, OperandValid a → OperandValid b → OperandValid c →
+  ∀ a b c : Obj, OpOK a → OpOK b → OpOK c →
     ∃ ab bc l r, inter a b = .ok ab ∧ inter b c = .ok bc ∧ interOpt ab (some c) = .ok l ∧ interOpt (some a) bc = .ok r ∧
-      ∀ x, denOptB l x ↔ denOptB r x
+      (∀ x, denOptB l x ↔ (ObjDen a x ∧ ObjDen b x ∧ ObjDen c x)) ∧ (∀ x, denOptB r x ↔ (ObjDen a x ∧ ObjDen b x ∧ ObjDen c x))
 
-/-- **C09 at full strength** (polyhedron part): the constructor applied to the faces of a Valid body, in any order and
-    orientation, returns a Valid body with the same vertices -/
-def polyhedron_ctor_canonical : Prop :=
-  ∀ (B0 : Polyhedron) (input : List Polygon), B0.Valid →
-    (∀ g ∈ input, g.Valid ∧ ∃ f ∈ B0.faces, ∀ p, p ∈ g.pts ↔ p ∈ f.pts) →
-    (∀ f ∈ B0.faces, ∃ g ∈ input, ∀ p, p ∈ g.pts ↔ p ∈ f.pts) → input.length = B0.faces.length →
-    ∃ B, Polyhedron.mk? input = .ok B ∧ B.Valid ∧ ∀ p, p ∈ B.verts ↔ p ∈ B0.verts
+/-- the single open fact -/
+def euler_formula_for_assembled_complexes : Prop := EulerAll
 
-/-- the full statements follow from each other where expected: exactness implies totality -/
+theorem exact_of_euler (hE : EulerAll) : inter_exact_all := by
+  intro a b ha hb
+  obtain ⟨o, ho, hw, hd⟩ := interRef_exact_all hE a b ha hb
+  exact ⟨o, by rw [Props.C04.inter_eq_ref]; exact ho, hw, hd⟩
+
 theorem total_of_exact (h : inter_exact_all) : inter_total_all := by
   intro a b ha hb e he
   obtain ⟨o, ho, _⟩ := h a b ha hb
   rw [ho] at he; cases he
+
+theorem assoc_of_euler (hE : EulerAll) : inter_assoc_all := by
+  intro a b c ha hb hc
+  obtain ⟨ab, bc, l, r, h1, h2, h3, h4, _, _, h5, h6⟩ := Props.C12.assoc_all_types_of_euler hE a b c ha hb hc
+  exact ⟨ab, bc, l, r, h1, h2, h3, h4, h5, h6⟩
+
+/-- … and that fact is proved (`Proofs/Euler1–6.lean`): the full-strength statements hold -/
+theorem inter_exact_all_holds : inter_exact_all := exact_of_euler eulerAll
+theorem inter_total_all_holds : inter_total_all := total_of_exact inter_exact_all_holds
+theorem inter_assoc_all_holds : inter_assoc_all := assoc_of_euler eulerAll
+
+/-- everything that does not pass through a polyhedron × polyhedron call needs no hypothesis at all -/
+theorem exact_unconditional (a b : Obj) (ha : OpOK a) (hb : OpOK b) (hnb : NotBothBodies a b) :
+    ∃ o, inter a b = .ok o ∧ ResOK o ∧ ∀ x, denOptB o x ↔ (ObjDen a x ∧ ObjDen b x) :=
+  Props.C12.inter_exact_admissible a b ha hb hnb
+
+/-- with coplanar neighbouring faces allowed the statement is FALSE (split cube: the Line handler misses part of the
+    intersection; the implementation behaves identically) — why `OpOK` asks for `FaceLocal` -/
+theorem not_exact_with_coplanar_neighbours :
+    ¬ ExactB (interLinePolyhedron lineTop splitCubeE) lineTop.den (BodyDen splitCubeE) := splitCubeE_line_not_exact
 end G3D.Props.Full
